@@ -282,3 +282,196 @@ func r3FieldRhs(p *an.Prog, fld *types.Var) []r3Write {
 	r3FieldRhsCache[fld] = out
 	return out
 }
+
+// --- C20 (also C01, C12): a recovery point that records a transfer is taken after the transfer happened ---
+//
+// recoveryPoint.revertState moves `amount` back from receiver to sender without
+// consulting isQuery / nestedView.  A recovery point created before the
+// transfer is known to have happened (before the read-only refusal, before a
+// failing sendBalance) stays on the list when the function leaves early; when
+// an enclosing call fails later it "reverts" a transfer that never took place:
+// coins move inside a read-only execution (and are created for the sender).
+func init() {
+	extend("C20", r3RecoveryAfterTransfer)
+	extend("C01", r3RecoveryAfterTransfer)
+}
+
+func r3RecoveryAfterTransfer(c *rep.Ctx) {
+	p := c.Prog
+	zero := p.LookupObj("contract", "zeroBig")
+	exempt := map[string]string{
+		"contract.luaGovernance": "the amount was moved by the system contract (stake / unstake) executed successfully just before; the point is updated only when one exists",
+	}
+	sites := p.CallSitesOf(map[string]bool{"contract.createRecoveryPoint": true})
+	n := 0
+	seen := map[string]int{}
+	for _, s := range sites {
+		if s.Fn == nil || len(s.Call.Args) < 5 {
+			continue
+		}
+		info := s.Fn.Info()
+		amt := ast.Unparen(s.Call.Args[4])
+		if zero != nil && an.ObjOf(info, amt) == zero {
+			continue
+		}
+		if tv, ok := info.Types[s.Call.Args[2]]; ok && tv.IsNil() {
+			continue
+		}
+		name := s.Fn.TopDecl().Name()
+		seen[name]++
+		key := name + "|createRecoveryPoint"
+		if seen[name] > 1 {
+			key += "#" + itoa(seen[name])
+		}
+		n++
+		if _, ok := exempt[name]; ok {
+			c.CheckTrivial("recovery-after-transfer", key, s.Call.Pos(), true, "table row: "+exempt[name])
+			continue
+		}
+		g := s.Fn.Graph()
+		node := g.NodeContaining(s.Call.Pos())
+		gates := an.Set{}
+		for _, sb := range g.CallsTo("contract.sendBalance") {
+			for e := range g.ErrNilEdges(sb) {
+				gates[e] = true
+			}
+		}
+		amtObj := an.ObjOf(info, amt)
+		for _, nd := range g.Nodes {
+			if nd.Kind != an.KTrue && nd.Kind != an.KFalse {
+				continue
+			}
+			be, ok := nd.Ast.(*ast.BinaryExpr)
+			if !ok {
+				continue
+			}
+			call, ok := ast.Unparen(be.X).(*ast.CallExpr)
+			if !ok || an.CalleeName(info, call) != "math/big.(*Int).Cmp" || recvObj(info, call) != amtObj || amtObj == nil {
+				continue
+			}
+			tv, has := info.Types[be.Y]
+			if !has || tv.Value == nil || tv.Value.ExactString() != "0" {
+				continue
+			}
+			// edges on which the amount is known not to be positive: nothing is transferred
+			switch {
+			case be.Op.String() == ">" && nd.Kind == an.KFalse, be.Op.String() == "<=" && nd.Kind == an.KTrue, be.Op.String() == "==" && nd.Kind == an.KTrue:
+				gates[nd] = true
+			}
+		}
+		ok := node != nil && len(gates) > 0 && g.Dominated(node, gates)
+		c.Check("recovery-after-transfer", key, s.Call.Pos(), ok, "a recovery point that records a transfer amount is created only on paths where the transfer succeeded (or nothing is transferred): created earlier, it survives the read-only refusal / a failed transfer and its later revert moves coins that were never sent, also inside a query or view")
+	}
+	if n < 4 {
+		c.Undecide("recovery-after-transfer", "contract.createRecoveryPoint", "fewer transfer-recording recovery points than on the reference tree")
+	}
+}
+
+// --- C18: the frame header is rebuilt completely for every message ---
+//
+// V030ReadWriter keeps one header buffer per connection and reuses it for every
+// message.  A header byte that is written only on some paths keeps the value of
+// the previous message on the others: the message read back by the peer differs
+// from the one written (e.g. a request carrying the previous response's
+// original id).  Decided: in marshalHeader the byte ranges written on every
+// path cover the whole header.
+func init() { extend("C18", r3HeaderFullyWritten) }
+
+func r3HeaderFullyWritten(c *rep.Ctx) {
+	p := c.Prog
+	f := c.Fn("p2p/v030.(*V030ReadWriter).marshalHeader")
+	if f == nil {
+		return
+	}
+	buf := p.LookupField("p2p/v030", "V030ReadWriter", "writeBuf")
+	if buf == nil {
+		c.Undecide("header-fully-written", "p2p/v030.V030ReadWriter.writeBuf", "field not found")
+		return
+	}
+	arr, ok := buf.Type().Underlying().(*types.Array)
+	if !ok {
+		c.Undecide("header-fully-written", "p2p/v030.V030ReadWriter.writeBuf", "the header buffer is not a fixed-size array any more")
+		return
+	}
+	size := arr.Len()
+	info := f.Info()
+	g := f.Graph()
+	covered := make([]bool, size)
+	constOf := func(e ast.Expr, def int64) (int64, bool) {
+		if e == nil {
+			return def, true
+		}
+		tv, ok := info.Types[e]
+		if !ok || tv.Value == nil {
+			return 0, false
+		}
+		var v int64
+		for _, ch := range tv.Value.ExactString() {
+			if ch < '0' || ch > '9' {
+				return 0, false
+			}
+			v = v*10 + int64(ch-'0')
+		}
+		return v, true
+	}
+	nWrites, nCond := 0, 0
+	type hdrWrite struct {
+		lo, hi int64
+		node   *an.Node
+	}
+	var writes []hdrWrite
+	ast.Inspect(f.Body, func(n ast.Node) bool {
+		call, ok := n.(*ast.CallExpr)
+		if !ok || len(call.Args) == 0 {
+			return true
+		}
+		// destination: first argument of copy / PutUintNN is a slice of the header buffer
+		name := an.CalleeName(info, call)
+		isWriter := an.IsBuiltin(info, call, "copy") || strings.Contains(name, "encoding/binary") && strings.Contains(name, "PutUint")
+		if !isWriter {
+			return true
+		}
+		se, ok := ast.Unparen(call.Args[0]).(*ast.SliceExpr)
+		if !ok || an.FieldOf(info, se.X) != buf {
+			return true
+		}
+		lo, ok1 := constOf(se.Low, 0)
+		hi, ok2 := constOf(se.High, size)
+		if !ok1 || !ok2 || lo < 0 || hi > size {
+			c.Undecide("header-fully-written", f.Name(), "header write with non-constant bounds")
+			return true
+		}
+		nWrites++
+		node := g.NodeContaining(call.Pos())
+		if node == nil {
+			return true
+		}
+		if !g.Dominated(g.Exit, an.SetOf(node)) {
+			nCond++
+		}
+		writes = append(writes, hdrWrite{lo, hi, node})
+		return true
+	})
+	// a byte is always written when the nodes writing it cut every path from entry to exit
+	for i := int64(0); i < size; i++ {
+		set := an.Set{}
+		for _, w := range writes {
+			if w.lo <= i && i < w.hi {
+				set[w.node] = true
+			}
+		}
+		covered[i] = len(set) > 0 && g.Dominated(g.Exit, set)
+	}
+	missing := ""
+	for i := int64(0); i < size; i++ {
+		if !covered[i] {
+			j := i
+			for j+1 < size && !covered[j+1] {
+				j++
+			}
+			missing += " [" + itoa(int(i)) + ":" + itoa(int(j+1)) + ")"
+			i = j
+		}
+	}
+	c.Check("header-fully-written", f.Name(), f.Pos(), missing == "" && nWrites > 0, "every byte of the reused "+itoa(int(size))+"-byte header buffer is written on every path ("+itoa(nWrites)+" writes, "+itoa(nCond)+" conditional); not always written:"+missing)
+}
